@@ -17,7 +17,21 @@ DroppedUnresolved(want, got) ==      \* got = want minus exactly the dependencie
 \* dependency whose version keeps an unresolved placeholder is dropped (before de-duplication) where Maven keeps it.
 RECURSIVE RawDeps(_)
 RawDeps(chain) == IF chain = <<>> THEN <<>> ELSE chain[1].deps \o RawDeps(Tail(chain))
-LibDeps(lin, boms) == LET dict == Dict(lin) mg == EffMgmt(lin, boms)
+\* the same for dependencyManagement: unresolved entries are dropped (in the lineage and in each imported BOM) BEFORE the
+\* first-wins merge and the import, so an imported BOM can fill the key the dropped entry would have kept
+LibMgmtOwn(lin) == LET dict == Dict(lin) raw == CatF(Chain(lin, 1), "mgmt")
+                       itp == [i \in 1..Len(raw) |-> InterpDep(raw[i], dict)] IN FirstWins(SelectSeq(itp, LAMBDA d : Resolved(d.v)), <<>>)
+RECURSIVE LibImportAll(_, _, _)
+LibImportAll(imports, boms, acc) ==
+  IF imports = <<>> THEN acc
+  ELSE LET d == imports[1]
+           cand == {b \in 1..Len(boms) : boms[b][1].g = d.g /\ boms[b][1].a = d.a /\ <<L(boms[b][1].v)>> = d.v}
+       IN LibImportAll(Tail(imports), boms,
+                       IF cand = {} THEN acc ELSE FirstWins(SelectSeq(LibMgmtOwn(boms[CHOOSE b \in cand : TRUE]), LAMBDA x : ~IsImport(x)), acc))
+LibMgmt(lin, boms) == LET own == LibMgmtOwn(lin) IN LibImportAll(SelectSeq(own, IsImport), boms, SelectSeq(own, LAMBDA x : ~IsImport(x)))
+HasUnresolvedMgmt(lin, boms) == (LET dict == Dict(lin) raw == CatF(Chain(lin, 1), "mgmt") IN \E i \in 1..Len(raw) : ~Resolved(Interp(raw[i].v, dict)))
+                                \/ \E b \in 1..Len(boms) : LET dict == Dict(boms[b]) raw == CatF(Chain(boms[b], 1), "mgmt") IN \E i \in 1..Len(raw) : ~Resolved(Interp(raw[i].v, dict))
+LibDeps(lin, boms) == LET dict == Dict(lin) mg == LibMgmt(lin, boms)
                           raw == RawDeps(Chain(lin, 1))
                           itp == [i \in 1..Len(raw) |-> InterpDep(raw[i], dict)]
                           kept == FirstWins(SelectSeq(itp, LAMBDA d : Resolved(d.v)), <<>>) IN
@@ -31,11 +45,13 @@ LineageRej(o) ==
   ELSE LET wd == OutSeq(EffDeps(o.lineage, o.boms)) wm == OutSeq(EffMgmt(o.lineage, o.boms)) IN
      (IF o.deps = wd THEN {}
       ELSE IF o.deps = OutSeq(LibDeps(o.lineage, o.boms)) THEN
-             (IF HasUnresolvedDep(o.lineage) THEN {"dependency-with-unresolved-placeholder-dropped"} ELSE {})
+             (IF HasUnresolvedDep(o.lineage) \/ HasUnresolvedMgmt(o.lineage, o.boms) THEN {"dependency-with-unresolved-placeholder-dropped"} ELSE {})
              \cup (IF HasDupInOnePom(o.lineage) THEN {"duplicate-declaration-in-one-pom-first-kept"} ELSE {})
-             \cup (IF ~HasUnresolvedDep(o.lineage) /\ ~HasDupInOnePom(o.lineage) THEN {"dependencies-differ-from-maven"} ELSE {})
+             \cup (IF ~HasUnresolvedDep(o.lineage) /\ ~HasUnresolvedMgmt(o.lineage, o.boms) /\ ~HasDupInOnePom(o.lineage) THEN {"dependencies-differ-from-maven"} ELSE {})
       ELSE {"dependencies-differ-from-maven"})
-     \cup (IF o.mgmt = wm \/ DroppedUnresolved(wm, o.mgmt) THEN {} ELSE {"managed-dependencies-differ-from-maven"})
+     \cup (IF o.mgmt = wm THEN {}
+           ELSE IF o.mgmt = OutSeq(LibMgmt(o.lineage, o.boms)) /\ HasUnresolvedMgmt(o.lineage, o.boms) THEN {"dependency-with-unresolved-placeholder-dropped"}
+           ELSE {"managed-dependencies-differ-from-maven"})
 TableRej(o) ==
   IF ~o.terminated THEN {"interpolation-did-not-terminate"}
   ELSE LET dict == [n \in {"a", "b", "c"} |-> IF n = "a" THEN o.table.a ELSE IF n = "b" THEN o.table.b ELSE o.table.c] IN
